@@ -88,6 +88,8 @@ def run(rep):
         nf, p, scheme = combos[attempts % len(combos)] if attempts <= 2 * len(combos) else rng.choice(combos)
         Q02 = rng.uniform(1, 10)
         Q2 = 10 ** rng.uniform(0, 4) if rng.random() < 0.8 else rng.uniform(1, 10)
+        if rng.random() < 0.15:
+            Q2 = max(1.0, Q02 * (1 + rng.choice([-1, 1]) * 10 ** rng.uniform(-4, -1.3)))   # just off the input scale
         a0 = rng.uniform(0.005, 0.08)
         r20 = 2.5 if rng.random() < 0.3 else rng.uniform(1, 10)
         # every other theory repeats the previous one with exactly ONE ingredient changed (hidden state keyed on
